@@ -48,9 +48,10 @@ def oracle_fold(text, k, fb, valid):
         blocks = [text[b[i]:b[i + 1]] for i in range(len(b) - 1)] + [text[b[-1]:]]
         finals = []
         for f, ix in zip(folds, index):
-            if sorted(f) != sorted(text):
+            if len(f) != n or (n <= 30 and sorted(f) != sorted(text)):      # (a rotation, checked next, is a permutation)
                 return 'a fold is not a permutation of the text'
-            if not any(f == text[c:] + text[:c] for c in range(max(n, 1))):
+            c = text.index(f[0]) if f and f[0] in text else 0      # lines are distinct
+            if f != text[c:] + text[:c]:
                 return 'a fold is not a rotation of the text'
             finals.append(f[ix:])
         for j, bl in enumerate(blocks):
@@ -78,14 +79,14 @@ def oracle_fold(text, k, fb, valid):
 def main():
     ck = Check('C07')
     failures = ck.prove()
-    N = 200 if ck.thorough else 40
+    N = 120 if ck.thorough else 40
     NB = 11 if ck.thorough else 8
     cases = []
     # 1. boundaries and default fold for every (n, k) up to the bound, invalid k included
     for n in range(0, N + 1):
         text = list(range(0, n))  # distinct opaque lines; 0 is falsy on purpose
-        ks = list(range(-1, n + 3)) if n <= 12 or ck.thorough else sorted(set(
-            [-1, 0, 1, 2, 3, n - 1, n, n + 1, n + 2] + [ck.rng.randint(1, n) for _ in range(6)]))
+        ks = list(range(-1, n + 3)) if n <= (40 if ck.thorough else 12) else sorted(set(
+            [-1, 0, 1, 2, 3, n - 1, n, n + 1, n + 2] + [ck.rng.randint(1, n) for _ in range(12 if ck.thorough else 6)]))
         for k in ks:
             valid = 1 <= k <= n
             cases.append(dict(
@@ -156,7 +157,7 @@ def main():
     n, problems = ck.coq_recheck()
     finish_proof_failures(ck, failures + problems)
     return ck.finish(
-        rule='exhaustive: every (n,k), n<=%d (all k in -1..n+2 for n<=12, sampled k beyond in quick) through boundaries, fold, fold+unfold; '
+        rule='exhaustive: every (n,k), n<=%d (all k in -1..n+2 for n<=12 in quick and n<=40 in thorough, sampled k beyond) through boundaries, fold, fold+unfold; '
              'every valid boundary vector for n<=%d (%d vectors); %d malformed boundary vectors. '
              'Non-trivial = more than one fold or an error; distinct = distinct (n,k,fb,site).' % (N, NB, nvalid, nmal),
         assumptions=['lines are opaque; indices non-negative; len(text) < 2^53 so int(len/k) is the floor'],
